@@ -10,6 +10,7 @@ import Arca.Model.Cancel
 import Arca.Model.SkelUtil
 import Arca.Gen.Consts
 import Arca.Gen.Skel
+import Arca.Props.C06Foreach
 
 namespace Arca.Props.C06
 open Arca.Model.Cancel Arca.Model.Skel
